@@ -436,6 +436,14 @@ class ProgramOptionsSave(Contract):
                 break
             top += prec_sites(st_)
         global_prec = max([v for v in top if v is not None], default=6)
+        # the stream precision is sticky: whatever any other statement of the function sets stays in effect for later iterations of the
+        # loop.  A branch that does not set the precision in its own output chain is therefore only as good as the SMALLEST value set
+        # anywhere in the function (and as the default, 6, if nothing is set before the loop)
+        all_sites = [v for v in prec_sites(sb) if v is not None]
+        unknown_sites = [v for v in prec_sites(sb) if v is None]
+        if unknown_sites:
+            raise ExtractionError('ProgramOptions::save: a precision() / setprecision() argument is not a literal or numeric_limits<T>::max_digits10')
+        inherited = min(all_sites + [global_prec]) if all_sites else global_prec
         for n in _walk(save):
             if n.get('kind') != 'IfStmt':
                 continue
@@ -444,7 +452,7 @@ class ProgramOptionsSave(Contract):
             for T in tids:
                 if T in NEED:
                     local = [v for v in prec_sites(n['inner'][1]) if v is not None]
-                    have = max(local + [global_prec])
+                    have = min(local) if local else inherited
                     ex.obls.append(Obligation(f'ProgramOptions::save#text.{T.replace("std::", "").replace("<", "_").replace(">", "")}_values_round_trip', {'C13'}, [], z3.BoolVal(have >= NEED[T]), 'postcondition', line_of(n),
                                               f'values of type {T} are written with {have} significant digits; {NEED[T]} (max_digits10) are needed for the text to reproduce the value exactly'))
         # ---- alpha0: written as 0 only when the synchrotron frequency is the one in use (f_s != 0)
